@@ -427,4 +427,95 @@ Definition show_built (r : res TM.term) : string := show_res show_term r.
 Definition line_build (id : Z) (js : list json) : string :=
   line "M" id (join " | " (map (fun j => show_built (TM.build 50 j)) js)).
 
+(* ---- configured models at work: JSON -> TerminationModelBuilder::build -> a real search under the built model.
+        [configured j] reads the limits the way the PROPERTY reads a configuration: an `iterations` / `solution_size`
+        limit of L >= 0 means L, a `query_runtime` limit "h:mm:ss" means that many seconds checked every
+        `frequency` >= 1 iterations, `combined` means all of its members.  None = not such a configuration (negative
+        numbers, missing or mistyped fields ...): outside the property, whatever the builder does with it. ---- *)
+Fixpoint configured (fuel : nat) (j : json) : option TM.term :=
+  match fuel with
+  | 0 => None
+  | S fu =>
+      match jget j "type" with
+      | Some (JStr ty) =>
+          let ty := TM.to_lowercase ty in
+          let nonneg (k : string) : option N :=
+            match TM.get_config_i64 j k with
+            | Ok z => if Z.leb 0 z then Some (Z.to_N z) else None
+            | _ => None
+            end in
+          if String.eqb ty "iterations" then option_map TM.Iter (nonneg "limit")
+          else if String.eqb ty "solution_size" then option_map TM.Size (nonneg "limit")
+          else if String.eqb ty "query_runtime" then
+            match jget j "limit", nonneg "frequency" with
+            | Some dv, Some f =>
+                match TM.as_duration dv with
+                | Ok d => if N.eqb f 0 then None else Some (TM.Runtime d f)
+                | _ => None
+                end
+            | _, _ => None
+            end
+          else if String.eqb ty "combined" then
+            match jget j "models" with
+            | Some (JArr ms) =>
+                option_map TM.Combined
+                  ((fix go (ms : list json) : option (list TM.term) :=
+                      match ms with
+                      | [] => Some []
+                      | x :: r => match configured fu x, go r with
+                                  | Some t, Some l => Some (t :: l)
+                                  | _, _ => None
+                                  end
+                      end) ms)
+            | _ => None
+            end
+          else None
+      | _ => None
+      end
+  end.
+
+(* one configuration of a case: what the builder returned and, when it built a model, the search observed under it *)
+Definition show_config_entry (unl : obs) (script : list N) (b : res TM.term) (o : option obs) : string :=
+  show_built b ++ match b, o with
+                  | Ok t, Some ob => " => " ++ show_entry unl (t, script) ob
+                  | _, _ => ""
+                  end.
+Definition show_config_case (unl : obs) (script : list N) (cs : list (res TM.term * option obs)) : string :=
+  "U{" ++ show_obs_full unl ++ " tr=" ++ show_list show_pair_nn (ob_trace unl) ++ "} "
+  ++ join " | " (map (fun c => show_config_entry unl script (fst c) (snd c)) cs).
+
+Section ConfigRun.
+  Variable N : Num.
+  Definition line_M_config (fuel : nat) (id : Z) (w : SR.world N) (q : SR.query N) (script : list BinNums.N) (js : list json)
+    : string :=
+    line "M" id
+      (if SR.has_tie N fuel w q then "TIE"
+       else show_config_case (model_obs N fuel w q (unlimited_term, [])) script
+              (map (fun j => let b := TM.build 50 j in
+                             (b, match b with Ok t => Some (model_obs N fuel w q (t, script)) | _ => None end)) js)).
+
+  (* the property, from the JSON configuration and the implementation's observations: the sweep of configured
+     models must behave as the configured numbers say (check_case: bounds, explicit error naming the configured
+     limit, unlimited result otherwise, monotone); a well-formed configuration must be accepted by the builder *)
+  Definition line_S_config (id : Z) (w : SR.world N) (q : SR.query N) (script : list BinNums.N) (unl : obs)
+             (cs : list (json * res TM.term * option obs)) : string :=
+    let vertex := match SR.q_orient N q with SR.OVertex => true | SR.OEdge => false end in
+    let maxdeg := TM.deg_bound (SR.q_dir N q) (SR.graph_of N w) in
+    let rejected := existsb (fun c => match configured 50 (fst (fst c)), snd (fst c) with
+                                      | Some _, Ok _ => false
+                                      | Some _, _ => true
+                                      | None, _ => false
+                                      end) cs in
+    let es := flat_map (fun c => match configured 50 (fst (fst c)), snd c with
+                                 | Some t, Some o => [((t, script), o)]
+                                 | _, _ => []
+                                 end) cs in
+    line "S" id
+      (if rejected then "REJECT(a well-formed configuration was rejected by the builder)"
+       else match check_case vertex maxdeg unl es with
+            | None => show_config_case unl script (map (fun c => (snd (fst c), snd c)) cs)
+            | Some why => "REJECT(" ++ why ++ " -- the term shown is the CONFIGURED one)"
+            end).
+End ConfigRun.
+
 End TR.
